@@ -20,7 +20,7 @@ RULE = ("case = (1..8 pipelined requests of mixed flexible/non-flexible API type
         "per-waiter mode normal/timeout/cancel-before/cancel-after; peer reply delays; chunking of the reply "
         "byte stream at seeded or enumerated positions; optional fatal fault at a reply position: wrong/"
         "duplicate/zero correlation id, truncated body, unsolicited frame, EOF/reset at a byte, bad size; "
-        "correlation counter preset near 2^31). Non-trivial = >=2 requests and at least one of "
+        "correlation counter preset near 2^31); plus, per random shard, scenarios in which the transport's write() raises BrokenPipeError on the next send while the peer stays silent (1..5 requests outstanding). Non-trivial = >=2 requests and at least one of "
         "{chunk cut, timeout, cancel, fault}. Distinct = signature over (request kinds, modes, fault kind+"
         "position, number of cuts, wrap).")
 ASSUMPTIONS = [
@@ -30,7 +30,7 @@ ASSUMPTIONS = [
     "FindCoordinator v0 + correlation id 0 is its own scenario class (deliberate library quirk)",
 ]
 REQUIRED_COUNTERS = ["waiters_checked", "results_matched", "fatal_faults_injected", "waiters_failed_by_fault",
-                     "timeouts_observed", "cancels_observed"]
+                     "timeouts_observed", "cancels_observed", "write_failure_cases"]
 
 T_REQ = 5.0  # request timeout (virtual seconds)
 
@@ -412,6 +412,98 @@ def run_case(case, seed):
     return obs
 
 
+# ---- a transport whose write() raises ------------------------------------------------------------
+def run_write_failure(seed, n, answered, kinds):
+    """n pipelined requests, the peer answers the first `answered` and then stays silent (no EOF, no reset); the next
+    send() finds that writer.write() raises BrokenPipeError - the only sign of the broken connection this client ever
+    gets.  Stock asyncio transports report a dead peer through connection_lost()/EOF (covered at every byte by the cases
+    above); transports that raise from write() exist (the library has a branch for them), so the harness arms one.
+    Expected (property): that send() raises a connection error, every outstanding waiter fails with a connection error at
+    that very moment - not when its request timeout expires - on_close is called once, the transport is closed."""
+    from aiokafka import errors as Errors
+    from aiokafka.conn import create_conn
+    from vf.simloop import SimNet, run_sim
+    log = []
+    case = {"idx": -1, "mode": "normal", "fault": None,
+            "reqs": [{"kind": k, "marker": 700 + i, "send_at": 0.0, "mode": "normal", "cuts": None,
+                      "reply_delay": (0.01 if i < answered else None)} for i, k in enumerate(kinds[:n])]}
+    peer = Peer(case, log)
+    net = SimNet(seed=seed, lat=(0.0002, 0.003), fragment=False)
+    net.listen("peer", 9092, peer)
+    obs = {"waiters": [], "on_close": [], "errors": []}
+
+    async def main(loop):
+        def on_close(conn, reason):
+            obs["on_close"].append((loop.time(), str(reason)))
+        conn = await create_conn("peer", 9092, request_timeout_ms=int(T_REQ * 1000), on_close=on_close)
+        conn._versions = {api: (v, v) for api, v in VERSIONS.values()}
+        tr = conn._writer.transport
+        t0 = loop.time()
+
+        async def waiter(i, kind):
+            w = {"i": i, "kind": kind}
+            obs["waiters"].append(w)
+            api, v = VERSIONS[kind]
+            conn._versions[api] = (v, v)
+            try:
+                aw = conn.send(make_request(kind))
+            except Exception as e:  # noqa: BLE001
+                w.update(outcome="send_raised", exc=type(e).__name__, is_conn=isinstance(e, Errors.KafkaConnectionError),
+                         t_done=loop.time() - t0)
+                return
+            peer.qorder.append(i)
+            try:
+                await aw
+                w.update(outcome="result")
+            except asyncio.TimeoutError:
+                w.update(outcome="timeout")
+            except Exception as e:  # noqa: BLE001
+                w.update(outcome="error", exc=type(e).__name__, is_conn=isinstance(e, Errors.KafkaConnectionError))
+            w["t_done"] = loop.time() - t0
+        tasks = [asyncio.ensure_future(waiter(i, k)) for i, k in enumerate(kinds[:n])]
+        await asyncio.sleep(0.5)
+
+        def broken_write(data):
+            raise BrokenPipeError("simulated: write on a broken connection")
+        tr.write = broken_write
+        obs["t_break"] = loop.time() - t0
+        tasks.append(asyncio.ensure_future(waiter(n, kinds[n % len(kinds)])))
+        await asyncio.sleep(2 * T_REQ + 1)
+        obs["pending"] = [i for i, t in enumerate(tasks) if not t.done()]
+        obs["connected"] = conn.connected()
+        obs["transport_closing"] = tr.is_closing() or tr.lost
+        for t in tasks:
+            t.cancel()
+        conn.close()
+        await asyncio.sleep(0.1)
+    try:
+        run_sim(main, seed=seed, net=net, max_virtual_s=600, max_events=100000)
+    except Exception as e:  # noqa: BLE001
+        obs["errors"].append(f"{type(e).__name__}: {e}")
+    V = []
+    if obs["errors"]:
+        return None, obs
+    tb = obs["t_break"]
+    wit = {"n": n, "answered": answered, "kinds": kinds[:n + 1], "seed": seed, "waiters": obs["waiters"], "on_close": obs["on_close"]}
+    last = obs["waiters"][-1]
+    if not (last.get("outcome") == "send_raised" and last.get("is_conn")):
+        V.append(("send_on_broken_transport_does_not_raise_connection_error",
+                  f"send() whose writer.write() raised BrokenPipeError ended as {last.get('outcome')}/{last.get('exc')}", wit))
+    for w in obs["waiters"][answered:n]:
+        if w.get("outcome") != "error" or not w.get("is_conn") or w.get("t_done", 1e9) > tb + 0.05:
+            V.append(("waiter_not_failed_when_write_on_the_connection_failed",
+                      f"request {w['i']} was outstanding when a write on its connection raised BrokenPipeError at t={tb:.2f}; it "
+                      f"ended as {w.get('outcome')}/{w.get('exc')} at t={w.get('t_done')}", wit))
+            break
+    if obs["connected"]:
+        V.append(("connection_reports_connected_after_write_failure", "connected() is True after writer.write() raised", wit))
+    if not obs["transport_closing"]:
+        V.append(("transport_open_after_write_failure", "transport not closed after writer.write() raised", wit))
+    if len(obs["on_close"]) != 1:
+        V.append((f"on_close_called_{len(obs['on_close'])}_times_after_write_failure", "on_close callback count", wit))
+    return V, obs
+
+
 # ---- oracle -------------------------------------------------------------------------------------
 def frame_len(kind):
     return 4 + len(response_header(kind, 1)) + len(response_body(kind, 1))
@@ -673,6 +765,20 @@ def run_shard(params):
         for i in range(params["n"]):
             case = gen_case(rng, i)
             handle(case, params["seed"] * 100003 + i)
+        for i in range(max(4, params["n"] // 40)):
+            n = rng.randint(1, 5)
+            answered = rng.randint(0, n - 1)
+            kinds = [rng.choice(KINDS) for _ in range(n + 1)]
+            V, obs = run_write_failure(params["seed"] * 7919 + i, n, answered, kinds)
+            res["evaluations"] += 1
+            if V is None:
+                res["inconclusive"].append(f"harness error in write-failure case: {obs['errors'][0]}")
+                continue
+            res["counters"]["write_failure_cases"] = res["counters"].get("write_failure_cases", 0) + 1
+            res["counters"]["waiters_outstanding_at_write_failure"] = \
+                res["counters"].get("waiters_outstanding_at_write_failure", 0) + (n - answered)
+            for mech, what, wit in V:
+                res["violations"].append({"mechanism": mech, "what": what, "witness": {"write_failure": wit}})
     else:
         for j, case in enumerate(enum_split_cases(params["kinds"], params.get("fault"))):
             case["idx"] = j
@@ -686,6 +792,10 @@ def replay(witness):
     repoimport.use_repo()
     import logging
     logging.disable(logging.CRITICAL)
+    if "write_failure" in witness:
+        wf = witness["write_failure"]
+        V, _obs = run_write_failure(wf["seed"], wf["n"], wf["answered"], wf["kinds"])
+        return {"evaluations": 1, "violations": [{"mechanism": m, "what": w, "witness": {"write_failure": d}} for m, w, d in (V or [])]}
     case, seed = witness["case"], witness["seed"]
     obs = run_case(case, seed)
     V, stats = judge(case, obs)
